@@ -66,6 +66,14 @@ func (w *World) monFlow(n *node, kind string, in *pb.Message, pre, post *raft.Ve
 	if kind == "reportsnap" {
 		delete(n.pendingSnapTo, w.mon.curReportTo)
 	}
+	if kind == "applycc" {
+		// a peer removed, or removed and added again by one change, gets a fresh Progress
+		for f := range n.pendingSnapTo {
+			if pp, ok := post.Progress[f]; !ok || pp.State != tracker.StateSnapshot {
+				delete(n.pendingSnapTo, f)
+			}
+		}
+	}
 	for _, c := range created {
 		if c.GetType() == pb.MsgApp && n.pendingSnapTo[c.GetTo()] {
 			w.violate("C16", []string{"C09"}, "leader %d created a MsgApp (prev index %d, %d entries) for %d although the snapshot it sent to it is still pending: no acknowledgement from it and no ReportSnapshot since (%s)", n.id, c.GetIndex(), len(c.GetEntries()), c.GetTo(), kind)
